@@ -33,6 +33,20 @@ from a raw list / dict; `Json[List[int]]` / `Json[Dict[str, int]]` are there too
 their own mark into the object they received (`val` / `valtmp` writes: through the parameter in the task function,
 through `ctx.message.args / kwargs` in a dependency) and every echo carries the canonical form of what is held.
 
+How the Receiver that executes the deliveries comes to exist is part of the case (`path`; absent = built directly by
+the driver, or the broker's own one with `via_inmemory`):
+  * {"kind": "cli", "argv": [...]}: the real worker command line (harness/cli_glue.py: WorkerArgs.from_cli +
+    start_listen) computes the keyword arguments of the Receiver;
+  * {"kind": "api", "kwargs": {...}}: the real taskiq.api.run_receiver_task does (its own parameter names);
+  * {"kind": "inmemory", "life": [...], "send": "kick" | "kicker", ...}: an InMemoryBroker built with the case's
+    switches (propagate_exceptions, cast_types, max_async_tasks, await_inplace, sync_tasks_pool_size) is taken through
+    the life-cycle calls of `life` (startup / shutdown, e.g. startup, shutdown, startup = a broker reused after a
+    shutdown) and the deliveries are then SENT: through the broker's real kick() (the bytes the driver built) or
+    through the real kicker of the task (with_task_id / with_labels / kiq).  Whatever receiver the broker holds at
+    that moment executes them; the callback task the broker spawns is found by its execution tag and awaited
+    (broker.wait_all() at the end).  The broker hands over bare bytes: there is nothing to acknowledge.
+The property statements do not depend on the path: the case's `propagate` / `validate` / `ack` are what was ASKED for.
+
 The execution an event belongs to is carried by a ContextVar set by the harness task that calls
 `Receiver.callback` (propagated into the worker thread of sync task functions by the loop subclass) - it does
 not go through anything the properties are about."""
@@ -56,7 +70,8 @@ from taskiq.abc.result_backend import AsyncResultBackend
 from taskiq.acks import AckableMessage, AcknowledgeType
 from taskiq.brokers.inmemory_broker import InMemoryBroker
 from taskiq.exceptions import NoResultError
-from taskiq.message import TaskiqMessage
+from taskiq.kicker import AsyncKicker
+from taskiq.message import BrokerMessage, TaskiqMessage
 from taskiq.receiver import Receiver
 
 EXEC = contextvars.ContextVar("verif_exec", default=None)
@@ -204,6 +219,7 @@ class Run:
         self.toksrc = {}        # token -> context number that computed the kwargs of that dependency call
         self.scratch = {}       # exec -> object it marked for the time of its task function (`valtmp`)
         self.broker = None
+        self.sending = set()    # executions whose delivery is being handed to the broker's real kick()
 
     def ev(self, *a):
         self.log.append(list(a))
@@ -644,7 +660,10 @@ def _run_case(case):
     for k, n in enumerate(case["nodes"]):
         exec(node_src(k, n), ns)
     validate = bool(case.get("validate", True))
-    broker = InMemoryBroker(propagate_exceptions=bool(case.get("propagate", True)), cast_types=validate)
+    path = case.get("path") or {"kind": "direct"}
+    kind = path["kind"]
+    extra = {k: path[k] for k in ("max_async_tasks", "await_inplace", "sync_tasks_pool_size") if kind == "inmemory" and k in path}
+    broker = InMemoryBroker(propagate_exceptions=bool(case.get("propagate", True)), cast_types=validate, **extra)
     broker.result_backend = RecBackend()
     if case.get("middleware", True):
         broker.add_middlewares(RecMiddleware())
@@ -660,19 +679,42 @@ def _run_case(case):
         # resolved per execution: async_ctx builds a new DependencyGraph(target, replaced_deps) for every message
         broker.dependency_overrides = {ns["node_%d" % a]: ns["node_%d" % b] for a, b in case["overrides"]}
     ack = case.get("ack", "when_saved")
-    if case.get("via_inmemory") and ack == "when_saved":
+    tasks_decl = [broker.find_task("task_%d" % t) for t in range(len(case["tasks"]))]
+    if kind == "inmemory":
+        receiver = None                     # whatever receiver the broker holds when a delivery is kicked
+    elif kind in ("cli", "api"):
+        # the keyword arguments of the Receiver as the real command line / the real run_receiver_task compute them
+        # (on a throw-away broker, before the virtual-time loop exists)
+        import cli_glue
+        if kind == "cli":
+            kw = cli_glue.receiver_kwargs_via_cli(list(path["argv"]), InMemoryBroker())
+        else:
+            akw = dict(path["kwargs"])
+            if akw.get("ack_time") is not None:
+                akw["ack_time"] = ACK[akw["ack_time"]]
+            kw = cli_glue.receiver_kwargs_via_api(akw, InMemoryBroker())
+        kw.setdefault("run_startup", False)
+        receiver = Receiver(broker=broker, executor=broker.executor, **kw)
+    elif case.get("via_inmemory") and ack == "when_saved":
         receiver = broker.receiver          # the receiver InMemoryBroker builds itself (propagate flag plumbed by it)
     else:
         receiver = Receiver(broker=broker, executor=broker.executor, validate_params=validate, max_async_tasks=None,
                             propagate_exceptions=bool(case.get("propagate", True)), run_startup=False,
                             ack_type=ACK[ack])
+    real_kick = broker.kick
+
     async def rec_kick(message):
+        e = EXEC.get()
+        if e in R.sending:
+            # the delivery of execution e itself, sent by the driver through the real kicker: the broker's real kick()
+            R.sending.discard(e)
+            return await real_kick(message)
         # Context.requeue() ends here: nothing is executed again, the re-sent message is only recorded
-        R.ev("kick", EXEC.get(), message.task_id, jsonable(message.labels))
+        R.ev("kick", e, message.task_id, jsonable(message.labels))
         await asyncio.sleep(0)
 
     broker.kick = rec_kick
-    datas, sent = [], {}
+    datas, sent, calls = [], {}, []
     for i, m in enumerate(case["msgs"]):
         # several deliveries may carry one task id (duplicate kick) or be the very same message (redelivery: same
         # content, the same bytes object); executions are identified by the delivery index
@@ -692,15 +734,49 @@ def _run_case(case):
                             kwargs=kwargs)
         data = broker.formatter.dumps(msg).message
         datas.append(sent.setdefault(data, data))
+        calls.append(msg)
+
+    async def send(i, m):
+        """delivery i handed to the InMemoryBroker: it spawns (or, await_inplace, awaits) the callback of the receiver
+        it holds now.  The spawned task carries this runner's execution tag; it is awaited here."""
+        msg = calls[i]
+        R.ev("cb_start", i)
+        err = None
+        try:
+            if path.get("send", "kick") == "kicker":
+                decl = tasks_decl[m["task"]]
+                if decl.labels:
+                    # a task declared with labels: its own kicker would merge them into the message; the case says
+                    # what the message carries
+                    kicker = AsyncKicker(task_name=decl.task_name, broker=broker, labels={})
+                else:
+                    kicker = decl.kicker()
+                R.sending.add(i)
+                await kicker.with_task_id(msg.task_id).with_labels(**msg.labels).kiq(*msg.args, **msg.kwargs)
+            else:
+                await real_kick(BrokerMessage(task_id=msg.task_id, task_name=msg.task_name, message=datas[i],
+                                              labels=msg.labels))
+            me = asyncio.current_task()
+            mine = [t for t in asyncio.all_tasks() if t is not me and t.get_context().get(EXEC) == i]
+            for res in await asyncio.gather(*mine, return_exceptions=True):
+                if isinstance(res, BaseException) and err is None:
+                    err = type(res).__name__ + ": " + str(res)[:200]
+        except BaseException as ex:  # noqa: B902 - an escaping exception is an observation
+            err = type(ex).__name__ + ": " + str(ex)[:200]
+        finally:
+            R.sending.discard(i)
+        R.ev("cb_done", i, err)
 
     async def runner(i, m):
         EXEC.set(i)
         if m.get("start"):
             await asyncio.sleep(m["start"] / 1_000_000)
-        kind = m.get("ackable", "sync")
-        if kind == "none":
+        if receiver is None:
+            return await send(i, m)
+        akind = m.get("ackable", "sync")
+        if akind == "none":
             message = datas[i]
-        elif kind == "sync":
+        elif akind == "sync":
             message = AckableMessage(data=datas[i], ack=lambda: R.ev("ack", i))
         else:
             async def aack():
@@ -715,7 +791,12 @@ def _run_case(case):
             R.ev("cb_done", i, type(ex).__name__ + ": " + str(ex)[:200])
 
     async def main(loop):
+        if kind == "inmemory":
+            for op in path.get("life") or []:
+                await {"startup": broker.startup, "shutdown": broker.shutdown}[op]()
         await asyncio.gather(*[asyncio.create_task(runner(i, m)) for i, m in enumerate(case["msgs"])])
+        if kind == "inmemory":
+            await broker.wait_all()
 
     loop = Loop(0)
     asyncio.set_event_loop(loop)
